@@ -12,7 +12,7 @@ RULE = ("D cases (harness/FORMAT.md 'D — derive'): the real impl_ebml_specific
         "mutation per malformation class (duplicate id incl. the ids of Crc32/Void, unknown parent, non-master parent, path shorter/longer/different "
         "from the parent's path, maximum 0, adjacent placeholders, missing id, missing type, unknown type name, duplicate attribute) plus "
         "correspondence-only classes (empty doc_path, literals beyond u64, duplicate/reserved variant names); 7 enums compiled from the real macros "
-        "are probed through the public trait functions on every declared id and neighbours (D probe); the oracle is a Python reading of the "
+        "are probed through the public trait functions on every declared id and neighbours (D probe), which includes reading each declared id with the iterator and writing it - and a RawTag carrying it, under three options - with the writer under catch_unwind; W cases of class rawdecl: writer runs on random specifications in which a raw tag carries a DECLARED id of any type, at allowed and other positions, under default/explicit-width/unknown-size options (no panic; bytes compared with the model); the oracle is a Python reading of the "
         "property text (reference validity + expected table), independent of the model; non-trivial = accepted declaration with >= 3 variants or "
         "a rejected one; distinct = distinct case line")
 TRUSTED = TRUSTED_BASE + [
@@ -32,9 +32,6 @@ ASSUMPTIONS = ASSUME_BASE + [
     "declarations and the model mirrors that: compared with the code, not judged by the oracle)",
     "attributes other than id/data_type/doc_path are built-in ones (#[doc]); an attribute rustc does not know is left in place by the macro and "
     "rejected by rustc, which is not run on generated declarations",
-    "a raw tag (RawTag variant / get_raw_tag) is only used with ids the specification does not declare: a RawTag carrying a declared non-binary id "
-    "makes the writer panic ('Bad specification implementation', tag_writer.rs buffer_tag/write_explicit_sized): observed by hand, e.g. "
-    "TagWriter::write(&S::RawTag(0x81, vec![])) with 0x81 a declared master; not part of the generated cases",
 ]
 EXHAUSTIVE = {
     "quick": "all attribute lists of length <= 3 over {id 82, id 83, Master, UnsignedInt, unknown type, path Root, path Root/(-), other} for the second "
@@ -506,6 +503,28 @@ def generate(rng, tier):
         cases.append(Case("D " + d, "hand", {"expect": exp}))
     n_good = 4000 if thorough else 500
     n_bad = 600 if thorough else 70
+    # "used with the writer it never triggers the bad-specification panics": the one tag value of a generated enum whose variant does not
+    # fix its id is RawTag(id, data) - write it for DECLARED ids of every type, at allowed and other positions, under every option
+    specs = specs_pool(rng, 12 if thorough else 5)
+    for k in range(3000 if thorough else 300):
+        sp = rng.choice(specs)
+        tid = rng.choice(sorted(sp.ty))
+        path = sp.path[tid] if hasattr(sp, "path") else sp.get_path(tid)
+        ops = []
+        opened = []
+        if rng.random() < 0.85:
+            for part in path:
+                if isinstance(part, int):
+                    ops.append((rng.choice(["d", "d", "u", "2"]), ("s", part)))
+                    opened.append(part)
+        payload = bytes(rng.randrange(256) for _ in range(rng.choice([0, 1, 2, 8, 9, 130])))
+        ops.append((rng.choice(["d", "d", "1", "3", "u"]), ("r", tid, payload)))
+        if rng.random() < 0.5:
+            ops.append(("d", ("r", rng.choice(sorted(sp.ty)), b"\x01")))
+        for m in reversed(opened):
+            if rng.random() < 0.7:
+                ops.append(("d", ("e", m)))
+        cases.append(Case("W %s %s" % (sp.s(), ops_line(ops)), "rawdecl", {"expect": None}))
     for k in range(n_good):
         vs = good_decl(rng, big=(k % 10 == 0))
         easy_like = rng.random() < 0.3
@@ -548,6 +567,8 @@ def generate(rng, tier):
 
 def nontrivial(case, model_out):
     o = model_out[0]
+    if case.cls == "rawdecl":
+        return "OK@" in o
     if o.startswith("ERR"):
         return True
     return o.startswith("OK:") and case.lines[0].count(";") >= 2
@@ -603,6 +624,8 @@ def oracle(case, outs):
     t = bad_token(outs)
     if t:
         return "%s: %s -> %s" % (t, case.lines[0][:300], " ".join(outs)[:300])
+    if case.lines[0].startswith("W "):
+        return None      # writer run with raw tags of declared ids: no panic (bad_token above); the bytes are compared with the model
     fail = judge_table_line(case.lines[0], outs[0], case.meta.get("expect"))
     if fail:
         return fail
